@@ -149,6 +149,7 @@ var Mutants = map[string][]Mutant{
 		{"Windings looks at the whole path only", "path.go", `\tfor _, pi := range p\.Split\(\) \{\n\t\tzs := pi\.RayIntersections\(x, y\)`, "\tfor _, pi := range []*Path{p} {\n\t\tzs := pi.RayIntersections(x, y)", "E9.subpaths"},
 	},
 	"C07": {
+		{"Rect.Transform takes two corners when the matrix is diagonal", "util.go", `(func \(r Rect\) Transform\(m Matrix\) Rect \{\n)`, "${1}\tif m[0][1] == 0.0 && m[1][0] == 0.0 {\n\t\tq0 := m.Dot(Point{r.X0, r.Y0})\n\t\tq1 := m.Dot(Point{r.X1, r.Y1})\n\t\treturn Rect{q0.X, q0.Y, q1.X, q1.Y}\n\t}\n", "E3.hull-every-return"},
 		{"ToSVG matrix form written row by row", "util.go", `-dec\(m\[1\]\[0\]\), -dec\(m\[0\]\[1\]\)`, "-dec(m[0][1]), -dec(m[1][0])", "E11.svg-matrix-order"},
 		{"ShearAbout shears first and translates by the sheared pivot offset", "util.go", `return m\.Translate\(x, y\)\.Shear\(sx, sy\)\.Translate\(-x, -y\)`, "return m.Shear(sx, sy).Translate(-sx*y, -sy*x)", "E11.about-is-conjugation"},
 		{"Shear updates the entries of the receiver one after the other", "util.go", `(?s)(func \(m Matrix\) Shear\(sx, sy float64\) Matrix \{\n)\treturn m\.Mul\(Matrix\{\n[^\n]*\n[^\n]*\n\t\}\)\n`, "${1}\tm[0][0] += sy * m[0][1]\n\tm[1][1] += sx * m[1][0]\n\tm[0][1] += sx * m[0][0]\n\tm[1][0] += sy * m[1][1]\n\treturn m\n", "E11.matrix-composers"},
@@ -179,6 +180,7 @@ var Mutants = map[string][]Mutant{
 		{"Rect.Add max reads the low field", "util.go", `x1 := math\.Max\(r\.X1, q\.X1\)`, `x1 := math.Max(r.X1, q.X0)`, "E3.mirror"},
 	},
 	"C09": {
+		{"cubic length counts the middle piece twice", "path_util.go", `(q0, q1, q2, q3, r0, r1, r2, r3 := cubicBezierSplit\(q0, q1, q2, q3, t2\)\n\t\tbeziers = append\(beziers, \[4\]Point\{p0, p1, p2, p3\}\)\n\t\tbeziers = append\(beziers, \[4\]Point\{q0, q1, q2, q3\}\)\n\t\tbeziers = append\(beziers, \[4\]Point\{)r0, r1, r2, r3(\}\))`, "${1}q0, q1, q2, q3${2}\n\t\t_, _, _, _ = r0, r1, r2, r3", "E11.split-partition"},
 		{"Reverse sets the next sub-path's start before writing the pending Close", "path.go", `(?s)(\t\tcase MoveToCmd:\n)(\t\t\tif closed \{\n\t\t\t\tq\.d = append\(q\.d, CloseCmd, first\.X, first\.Y, CloseCmd\)\n\t\t\t\tclosed = false\n\t\t\t\}\n)`, "${1}\t\t\tif i != 0 {\n\t\t\t\tfirst = end\n\t\t\t}\n${2}", "E11.close-uses-own-start"},
 		{"line case of SplitAt claims [T, T+dT)", "path.go", `(case LineToCmd, CloseCmd:\n(?:[^\n]*\n){0,12}?[^\n]*for j < len\(ts\) && )T < ts\[j\] && ts\[j\] <= T\+dT \{`, "${1}T <= ts[j] && ts[j] < T+dT {", "E11.cut-interval"},
 		{"leading zero stripped before the cut list is sorted", "path.go", `(?s)\tts = append\(\[\]float64\{\}, ts\.\.\.\) // don't sort the caller's slice\n\tsort\.Float64s\(ts\)\n\tif ts\[0\] == 0\.0 \{\n\t\tts = ts\[1:\]\n\t\}\n`, "\tif ts[0] == 0.0 {\n\t\tts = ts[1:]\n\t}\n\tif !sort.Float64sAreSorted(ts) {\n\t\tts = append([]float64{}, ts...)\n\t\tsort.Float64s(ts)\n\t}\n", "E11.cuts-sorted-before-use"},
@@ -297,6 +299,7 @@ var Mutants = map[string][]Mutant{
 		{"stroke keeps even-odd star", "renderers/pdf/pdf.go", `\t\t\tif closed \{\n\t\t\t\tr\.w\.Write\(\[\]byte\(" s"\)\)\n\t\t\t\} else \{\n\t\t\t\tr\.w\.Write\(\[\]byte\(" S"\)\)\n\t\t\t\}\n\t\t\} else if style\.HasFill\(\) && style\.HasStroke\(\) \{`, "\t\t\tif closed {\n\t\t\t\tr.w.Write([]byte(\" s\"))\n\t\t\t} else {\n\t\t\t\tr.w.Write([]byte(\" S\"))\n\t\t\t}\n\t\t\tif style.FillRule == canvas.EvenOdd {\n\t\t\t\tr.w.Write([]byte(\"*\"))\n\t\t\t}\n\t\t} else if style.HasFill() && style.HasStroke() {", "E5.grammar"},
 	},
 	"C14": {
+		{"image origin from the height of the original", "renderers/rasterizer/rasterizer.go", `float64\(img\.Bounds\(\)\.Size\(\)\.Y - margin\)`, "float64(img.Bounds().Size().Y - 3*margin)", "E11.image-replaced-extent"},
 		{"y flip height taken from the rectangle's Max", "renderers/rasterizer/rasterizer.go", `(?s)(func \(r \*Rasterizer\) RenderPath\(.*?size := r\.Bounds\(\))\.Size\(\)`, "${1}.Max", "E6.scanner-site"},
 		{"fill-only path transformed in place by the rasterizer", "renderers/rasterizer/rasterizer.go", `\t\tfill = path\.Copy\(\)\.Transform\(m\)\n`, "\t\tfill = path\n\t\tif style.HasStroke() {\n\t\t\tfill = fill.Copy()\n\t\t}\n\t\tfill = fill.Transform(m)\n", "E1.render-pure"},
 		{"rasterizer scans the even-odd rule in non-zero mode and the others in even-odd mode", "renderers/rasterizer/rasterizer.go", `SetWinding\(style\.FillRule != canvas\.EvenOdd\)`, "SetWinding(style.FillRule == canvas.EvenOdd)", "E6.fill-rule-map"},
@@ -321,6 +324,7 @@ var Mutants = map[string][]Mutant{
 		{"rasterizer ignores the fill rule", "renderers/rasterizer/rasterizer.go", `\t\tr\.scanner\.SetWinding\(style\.FillRule != canvas\.EvenOdd\)\n`, ``, "E6.style-field"},
 	},
 	"C15": {
+		{"Fit restarts the hull with every z-index", "canvas.go", `(?s)(\tfor _, layers := range c\.layers \{\n)(\t\tfor _, l := range layers \{.*?)\t\t\t\tif rect\.Empty\(\) \{\n\t\t\t\t\trect = bounds\n`, "${1}\t\tfirst := true\n${2}\t\t\t\tif first {\n\t\t\t\t\tfirst = false\n\t\t\t\t\trect = bounds\n", "E11.accumulator-restart"},
 		{"Fit takes the image extent from the rectangle's corners", "canvas.go", `size := l\.img\.Bounds\(\)\.Size\(\)\n(\t+)bounds = Rect\{0\.0, 0\.0, float64\(size\.X\), float64\(size\.Y\)\}`, "b := l.img.Bounds()\n${1}bounds = Rect{float64(b.Min.X), float64(b.Min.Y), float64(b.Max.X), float64(b.Max.Y)}", "E11.image-extent-from-size"},
 		{"Context.Translate adds to the translation column of the view", "canvas.go", `(func \(c \*Context\) Translate\(x, y float64\) \{\n)\tc\.view = c\.view\.Mul\(Identity\.Translate\(x, y\)\)`, "${1}\tc.view[0][2] += x\n\tc.view[1][2] += y", "E11.view-postmul"},
 		{"DrawImage reflects about half the far corner of the image rectangle", "canvas.go", `(?s)(func \(c \*Context\) DrawImage\(.*?)m = m\.ReflectYAbout\(float64\(img\.Bounds\(\)\.Size\(\)\.Y\) / 2\.0\)`, "${1}m = m.ReflectYAbout(float64(img.Bounds().Max.Y) / 2.0)", "E11.image-extent-from-size"},
